@@ -209,6 +209,37 @@ def register(gen, T):
                    "`apply_macros_internal` (macro disabled before, enabled after) on every path -/\n")
         out.append(f"def bodyAlwaysRescanned : Bool := {'true' if always else 'false'}\n\n")
 
+        # --- the Concat arm: both operands of `##` are spelled by `unlex` (source text), nothing is rendered per token kind ---
+        cm = re.search(r'FoundMacro::Concat\(left_token_pos, right_token_pos\)\s*=>\s*\{', asm)
+        if not cm:
+            raise ExtractError("apply_single_macro: the `FoundMacro::Concat` arm not found")
+        cb = cm.end() - 1
+        carm = asm[cb + 1:_matching(asm, cb)]
+        cstm = [normws(x) for x in split_top(carm, ';') if x.strip()]
+        try:
+            i_l = next(i for i, st in enumerate(cstm) if st.startswith('let left_string ='))
+            i_f = next(i for i, st in enumerate(cstm) if st.startswith('let file_id ='))
+        except StopIteration:
+            raise ExtractError("apply_single_macro: `let left_string` / `let file_id` of the `Concat` arm not found")
+        cseq = [re.sub(r'\s*,\s*\)', ')', re.sub(r'\(\s+', '(', st)) for st in cstm[i_l:i_f + 1]]
+        out.append("/-- the statements of the `Concat` arm of `apply_single_macro` from the spelling of the operands to the registration\n"
+                   "of the joined text as a scratch file, in order -/\n")
+        out.append("def concatArmSpelling : List String :=\n  " + T.lean_list(lean_str(x) for x in cseq) + "\n\n")
+        uses_source = (cseq == [
+            'let left_string = unlex(std::slice::from_ref(left_token), source_manager)',
+            'let right_string = unlex(std::slice::from_ref(right_token), source_manager)',
+            'let new_fragment = format!("{left_string}{right_string}")',
+            'let file_id = source_manager.add_file(FileName("<scratch space>".to_string()), new_fragment)']
+            and 'let left_token = &tokens[left_token_pos]' in cstm and 'let right_token = &tokens[right_token_pos]' in cstm
+            and not re.search(r'\bmatch\b|\bif let\b', ' ; '.join(cstm[:i_f])))
+        # `unlex` itself must spell a token from the source text under its span, not from the token's payload
+        unl = normws(fn_body(T.src("preprocess/src/unlexer.rs"), "unlex"))
+        unlex_by_span = bool(re.search(r'source_manager', unl)) and not re.search(r'Token::LiteralInt|to_string\(\)', unl)
+        out.append("/-- `##` joins the SOURCE SPELLINGS of its operands: both go through `unlex` (the text under the token's span), are\n"
+                   "joined by `format!`, and the joined text is what is lexed; there is no `match` on the token kind before that,\n"
+                   "and `unlex` does not render a literal from its value -/\n")
+        out.append(f"def concatUsesSourceSpelling : Bool := {'true' if uses_source and unlex_by_span else 'false'}\n\n")
+
         fsm = normws(fn_body(pre, "find_single_macro"))
         uses = []
         for pat in (r'let mut i = (search_pos\.[a-z_]+);',
